@@ -635,9 +635,14 @@ def broadcast_and_apply(  # noqa: C901
                     ak.layout.ListOffsetArray64,
                 ),
             ):
+                my_offsets = nplike.asarray(x.offsets)
+                if len(my_offsets) == 0 or my_offsets[0] != 0:
+                    # the shortcut below slices the contents with [:offsets[-1]],
+                    # which is only right for lists that start at zero
+                    return False
                 if offsets is None:
-                    offsets = nplike.asarray(x.offsets)
-                elif not nplike.array_equal(offsets, nplike.asarray(x.offsets)):
+                    offsets = my_offsets
+                elif not nplike.array_equal(offsets, my_offsets):
                     return False
             elif isinstance(
                 x,
@@ -650,6 +655,8 @@ def broadcast_and_apply(  # noqa: C901
                 starts = nplike.asarray(x.starts)
                 stops = nplike.asarray(x.stops)
                 if not nplike.array_equal(starts[1:], stops[:-1]):
+                    return False
+                if len(starts) != 0 and starts[0] != 0:
                     return False
                 if offsets is None:
                     offsets = nplike.empty(len(starts) + 1, dtype=starts.dtype)
